@@ -22,43 +22,45 @@ type RedirectFlags struct {
 	EnableAll  bool
 }
 
-// readMessage parses and defragments a packet from a Transport. It returns
-// at most the bytes that have been reported by the packet
-func readMessage(in transport.Transport) (pt int, n int, msg []byte, err error) {
-	fragment := false
-	index := 0
-	buf := make([]byte, 4096)
+// maxPacketSize bounds what is buffered for one packet. The largest packets of
+// the protocol (a tunnel create with a 64k character cookie, a data packet with
+// a 64k payload) stay well below it.
+const maxPacketSize = 1024 * 1024
+
+// readMessage returns the next packet of the client's byte stream. Packets are
+// delimited by the length field of their header only: a read from the
+// transport may deliver a part of a packet, exactly one packet or several
+// packets. Bytes that belong to following packets are kept in pending for the
+// next call.
+func readMessage(in transport.Transport, pending *[]byte) (pt int, n int, msg []byte, err error) {
+	buf := *pending
 
 	for {
-		size, pkt, err := in.ReadPacket()
+		if len(buf) >= 8 {
+			size := binary.LittleEndian.Uint32(buf[4:8])
+			if size < 8 || size > maxPacketSize {
+				return 0, 0, []byte{0, 0}, errors.New("invalid packet size")
+			}
+			if len(buf) >= int(size) {
+				packetType, _, body, err := readHeader(buf[:size])
+				if err != nil {
+					return 0, 0, []byte{0, 0}, err
+				}
+				rest := make([]byte, len(buf)-int(size))
+				copy(rest, buf[size:])
+				*pending = rest
+				return int(packetType), int(size), body, nil
+			}
+		}
+
+		sz, pkt, err := in.ReadPacket()
 		if err != nil {
 			return 0, 0, []byte{0, 0}, err
 		}
-
-		// check for fragments
-		var pt uint16
-		var sz uint32
-		var msg []byte
-
-		if !fragment {
-			pt, sz, msg, err = readHeader(pkt[:size])
-			if err != nil {
-				fragment = true
-				index = copy(buf, pkt[:size])
-				continue
-			}
-			index = 0
-		} else {
-			fragment = false
-			pt, sz, msg, err = readHeader(append(buf[:index], pkt[:size]...))
-			// header is corrupted even after defragmenting
-			if err != nil {
-				return 0, 0, []byte{0, 0}, err
-			}
-		}
-		if !fragment {
-			return int(pt), int(sz), msg, nil
-		}
+		grown := make([]byte, len(buf)+sz)
+		copy(grown, buf)
+		copy(grown[len(buf):], pkt[:sz])
+		buf = grown
 	}
 }
 
